@@ -8,6 +8,10 @@ pub fn extra_scenarios() -> Vec<Scenario> {
     vec![]
 }
 
+pub fn implemented(_s: Scenario) -> bool {
+    false
+}
+
 pub fn cfg_for(_scn: Scenario, t: &mut Tape, _extra: u64) -> RunCfg {
     crate::run::gen_cfg(t, Profile::General)
 }
